@@ -233,7 +233,8 @@ def _work(args):
             else:
                 agg['keys'].add(case_key(case))
             if out['status'] == 'ok' and len(agg['samples']) < 2 \
-                    and out['nontrivial']:
+                    and out['nontrivial'] and \
+                    len(json.dumps(case)) < 6000:
                 agg['samples'].append(case)
             if out['status'] == 'hang':
                 agg['hangs'].append(case)
